@@ -206,10 +206,16 @@ def run(repo, rep, tier):
     rr = repo.func('kexdh', 'KexDH.recv_reply')
     rep.saw(rr)
     first = [unparse(s) for s in rr.body[:8] if isinstance(s, ast.Assign)]
-    need = {"self.__hostkey_type = ''", 'self.__hostkey_n_len = 0', "self.__ca_key_type = ''", 'self.__ca_n_len = 0'}
-    rp = [i for i, s in enumerate(rr.body) if isinstance(s, ast.Assign) and 'read_packet' in unparse(s)]
-    ok = need <= set(first) and rp and all(rr.body.index(s) < rp[0] for s in rr.body if isinstance(s, ast.Assign) and unparse(s) in need)
-    rep.check('record', 'recv_reply resets type/size/CA fields before reading the reply (no carry-over from the previous key type)', ok, rr, 'recv_reply no longer resets its measurement fields first')
+    # no measurement survives from the previous key type inside the reused key-exchange object: must-assignment of the fields the getters read
+    # (props/_hostkey_rating.stale_measurement_fields: CFG must-analysis of recv_reply, falling back to every send_init implementation)
+    _rr, _fields, _stale = _hostkey_rating.stale_measurement_fields(repo)
+    rep.floor('record', 'measurement fields read by the getters', len(_fields), 3)
+    for _fld, _why in _stale:
+        rep.check('record', 'field %s is assigned afresh in every exchange' % _fld, False, _rr,
+                  'KexDH.%s is %s: the key-exchange object is reused for every probed host-key type, so a later type is reported with the value parsed for an earlier one (e.g. a plain key with the previous certificate\'s CA)' % (_fld, _why),
+                  stmt='stale measurement field %s' % _fld)
+    if not _stale:
+        rep.ob('record', 'every measurement field (%s) is assigned on all paths of each exchange' % ', '.join(_fields), True)
     getters = {'get_hostkey_size': 'KexDH.__adjust_key_size(self.__hostkey_n_len)', 'get_ca_type': 'self.__ca_key_type', 'get_ca_size': 'KexDH.__adjust_key_size(self.__ca_n_len)', 'get_hostkey_type': 'self.__hostkey_type'}
     for g, want_v in getters.items():
         f = repo.func('kexdh', 'KexDH.' + g)
